@@ -84,14 +84,14 @@ let case (line : string) : string =
   | _ -> failwith "bad case"
 
 (* mode "mon": a trace in the canonical format (the implementation's own, harness-only
-   upper-case tokens W G H Q U K M B V Y O skipped) is parsed back into events and judged by the
+   upper-case tokens W G H Q U K M B V Y O D skipped) is parsed back into events and judged by the
    extracted checker Spec/StreamReadSpec.v [monitor]; prints four 0/1 digits:
    exact stream, alloc paired, silent until restart, no NULL call *)
 let parse_event (tok : string) : event option =
   let arg = String.sub tok 1 (String.length tok - 1) in
   let nat_ s = nat_of_int (int_of_string s) in
   match tok.[0] with
-  | 'W' | 'G' | 'H' | 'Q' | 'U' | 'K' | 'M' | 'B' | 'V' | 'Y' | 'O' -> None
+  | 'W' | 'G' | 'H' | 'Q' | 'U' | 'K' | 'M' | 'B' | 'V' | 'Y' | 'O' | 'D' -> None
   | 'P' -> Some (EPoll (z_of_string arg))
   | 'A' ->
       let arg = if String.length arg > 0 && arg.[0] = '!' then String.sub arg 2 (String.length arg - 2) else arg in
